@@ -208,6 +208,8 @@ def join(a, b):
         return ("int", None)
     if ka == "coll":
         return ("coll", join(a[1], b[1]), join(a[2], b[2]), a[3] | b[3])
+    if ka == "shapefacts":
+        return ("shapefacts", a[1] & b[1])
     if ka == "iter" or ka == "obj" or ka == "bytes" or ka == "fnref":
         return TOP
     if ka == "fmtarg":
@@ -287,8 +289,10 @@ def av_get(av, proj, uni):
                 return TOP
             i += 1
             continue
-        if av[0] == "coll" and e[0] == "f":
-            return TOP
+        if av[0] == "ref" and e[0] == "f":
+            # smart-pointer wrappers (Box/Unique/NonNull) are carried as the reference itself
+            i += 1
+            continue
         return TOP
     return av
 
